@@ -38,9 +38,15 @@
    watcher goroutine: <-session.Done(): if locked    LWatch i
      {setError(ErrLockSessionDone); cancel} else
      wait for the parent context
+   the lockCtx deadline fires inside the tryAcquire  LAcqLost i
+     RPC after the server applied the txn: the call
+     fails with the deadline error, myRev stays -1
+     and the key stays until the session is closed
+     (observed on the real code under machine load)
 
    Not modelled: cancellation of the caller's own context; RPC errors other than
-   "lease not found"; the deadline firing inside the tryAcquire RPC. *)
+   "lease not found" and the lost tryAcquire reply (the trace acceptor does not
+   replay LAcqLost: the harness repeats runs during which the server stalled). *)
 From Coq Require Import List Bool ZArith Arith.
 From Verif Require Import Base.KV Locks.Interleave Locks.LockLog.
 Import ListNotations.
@@ -80,7 +86,8 @@ Inductive label :=
 | LRevoke (l : Z)
 | LTick (d : Z)
 | LKeepAlive (i : nat)
-| LWatch (i : nat).
+| LWatch (i : nat)
+| LAcqLost (i : nat).
 
 Definition all_keys (_ : Z) : bool := true.
 
@@ -208,6 +215,19 @@ Definition step (s : sys) (l : label) : option sys :=
           let '(alive, kv') := e_keepalive kv (c_lease c) in
           if alive then with_c s i kv' c
           else with_c s i kv (mkCont (c_pc c) (c_lease c) (c_rev c) (c_locked c) true (c_w c) (c_ctx c))
+      | None => None
+      end
+  | LAcqLost i =>
+      match nth_error (s_cs s) i with
+      | Some c =>
+          match c_pc c with
+          | Called _ =>
+              match e_put_if_absent Z.eqb kv (c_lease c) tt (c_lease c) with
+              | Some (_, kv') => with_c s i kv' (set_pc c (Failed ErrDeadline))
+              | None => with_c s i kv (set_pc c (Failed ErrLeaseNotFound))
+              end
+          | _ => None
+          end
       | None => None
       end
   | LWatch i =>
